@@ -30,6 +30,7 @@ import (
 
 	"keepverif/harness/hx"
 
+	"github.com/btcsuite/btcd/wire"
 	"github.com/keep-network/keep-core/pkg/bitcoin"
 )
 
@@ -328,12 +329,12 @@ func boundaryLen(r *hx.Rng, tier string) int {
 	case 3:
 		return r.Range(255, 600)
 	case 4:
-		if tier == "thorough" {
+		if tier == "thorough" && r.Chance(1, 8) {
 			return 0xffff
 		}
 		return 0xfc
 	case 5:
-		if tier == "thorough" {
+		if tier == "thorough" && r.Chance(1, 8) {
 			return 0x10000
 		}
 		return 0xfd
@@ -385,10 +386,10 @@ func genTx(r *hx.Rng, tier string, zeroIn bool) string {
 	if r.Chance(1, 25) {
 		nout = []int{252, 253, 254}[r.Intn(3)]
 	}
-	if tier == "thorough" && r.Chance(1, 400) {
+	if tier == "thorough" && r.Chance(1, 1500) {
 		nin = []int{0xffff, 0x10000}[r.Intn(2)]
 	}
-	if tier == "thorough" && r.Chance(1, 400) {
+	if tier == "thorough" && r.Chance(1, 1500) {
 		nout = []int{0xffff, 0x10000}[r.Intn(2)]
 	}
 	if zeroIn {
@@ -595,6 +596,78 @@ func gen(r *hx.Rng, n int, tier string) []string {
 	return ops
 }
 
+// ---- facts: the decode limits of the btcd version /repo builds against ------------------
+// Most of them are unexported constants of btcd/wire, so they are measured on the real decoder:
+// a length/count prefix is accepted (the decoder then runs out of input: err:eof) exactly up to
+// the limit and refused with a limit error above it.
+
+func varint(n uint64) []byte {
+	switch {
+	case n < 0xfd:
+		return []byte{byte(n)}
+	case n <= 0xffff:
+		return []byte{0xfd, byte(n), byte(n >> 8)}
+	case n <= 0xffffffff:
+		return []byte{0xfe, byte(n), byte(n >> 8), byte(n >> 16), byte(n >> 24)}
+	}
+	b := []byte{0xff}
+	for i := 0; i < 8; i++ {
+		b = append(b, byte(n>>(8*uint(i))))
+	}
+	return b
+}
+
+// largest n in [1, 2^32] for which prefix(n) is not refused with the given limit error class
+// (candidates are tried first: two probes instead of a search that allocates a lot)
+func probeLimit(prefix func(n uint64) []byte, limitErr string, candidates ...uint64) uint64 {
+	ok := func(n uint64) bool { return decode(prefix(n)) != limitErr }
+	for _, c := range candidates {
+		if !ok(c+1) && ok(c) {
+			return c
+		}
+	}
+	lo, hi := uint64(1), uint64(1)<<32 // ok(lo), !ok(hi)
+	if !ok(lo) || ok(hi) {
+		panic("harness: limit probe out of range for " + limitErr)
+	}
+	for hi-lo > 1 {
+		mid := (lo + hi) / 2
+		if ok(mid) {
+			lo = mid
+		} else {
+			hi = mid
+		}
+	}
+	return lo
+}
+
+func facts() []string {
+	ver := []byte{1, 0, 0, 0}
+	input := append(make([]byte, 36), 0, 0xff, 0xff, 0xff, 0xff) // outpoint, empty script, sequence
+	cat := func(parts ...[]byte) []byte {
+		var b []byte
+		for _, p := range parts {
+			b = append(b, p...)
+		}
+		return b
+	}
+	output := append(make([]byte, 8), 0)
+	maxScript := probeLimit(func(n uint64) []byte { return cat(ver, []byte{1}, make([]byte, 36), varint(n)) }, "err:toobig", wire.MaxMessagePayload)
+	maxIn := probeLimit(func(n uint64) []byte { return cat(ver, varint(n)) }, "err:toomany", wire.MaxMessagePayload/41+1)
+	maxOut := probeLimit(func(n uint64) []byte { return cat(ver, []byte{1}, input, varint(n)) }, "err:toomany", wire.MaxMessagePayload/wire.MinTxOutPayload+1)
+	wpre := cat(ver, []byte{0, 1, 1}, input, []byte{1}, output)
+	maxWitItems := probeLimit(func(n uint64) []byte { return cat(wpre, varint(n)) }, "err:toomany", 4000000, 500000)
+	maxWitSize := probeLimit(func(n uint64) []byte { return cat(wpre, []byte{1}, varint(n)) }, "err:toobig", 4000000, 11000)
+	return []string{
+		fmt.Sprintf("nat maxScriptSize %d", maxScript),
+		fmt.Sprintf("nat maxTxIn %d", maxIn),
+		fmt.Sprintf("nat maxTxOut %d", maxOut),
+		fmt.Sprintf("nat maxWitnessItems %d", maxWitItems),
+		fmt.Sprintf("nat maxWitnessItemSize %d", maxWitSize),
+		fmt.Sprintf("nat maxMessagePayload %d", uint64(wire.MaxMessagePayload)),
+	}
+}
+
 func main() {
-	hx.Main(&hx.Config{Prop: "C29", Gen: gen, Exec: exec})
+	hx.Main(&hx.Config{Prop: "C29", Gen: gen, Exec: exec, Facts: facts})
 }
